@@ -51,6 +51,13 @@ def sfNames (nsf : Nat) : List Col := (List.range nsf).map Col.sf
 /-- `self._cf_names` is `None` when no control features were given -/
 def cfNames (ncf : Nat) : Option (List Col) := if ncf = 0 then none else some ((List.range ncf).map Col.cf)
 
+/-- which part of the underlying pandas result an accessor hands out: all of it, `.iloc[:, 0]`, `.iloc[0]` -/
+inductive Extract where
+  | whole
+  | column0
+  | entry0
+deriving Repr, DecidableEq
+
 /-! ### `all_data` as a table of named numeric columns (y_true, y_pred, sample-parameter columns) -/
 
 /-- the non-feature columns of `all_data`; a later assignment to the same name shadows the earlier one -/
